@@ -92,6 +92,15 @@ def forms(x):
     return out
 
 
+def spellings(x):
+    """string literals whose StringToNumber value is the integer x"""
+    d = "%d" % x
+    out = [d, d + ".0", " " + d + " ", "\u00a0" + d, "\ufeff" + d + "\u2028", d + "e0", d + ".", "\t\n" + d + "\u3000", d + "0e-1"]
+    if x >= 0:
+        out += ["+" + d, "0x%x" % x, "0X%X" % x, "\u2003" + "0b" + bin(x)[2:], "0o%o" % x, "00" + d]
+    return out
+
+
 OPS = {
     "i32": ["v | 0", "~~v", "v ^ 0", "v << 0", "v >> 0", "v & -1", "0 | v", "-1 & v", "new Int32Array([v])[0]", "Int32Array.of(v)[0]", "(ta = new Int32Array(1), ta[0] = v, ta[0])",
             "new Int32Array(1).fill(v)[0]", "(ta = new Int32Array(1), ta.set([v]), ta[0])", "(dv.setInt32(0, v), dv.getInt32(0))", "Math.imul(v, 1)", "Math.imul(1, v)",
@@ -150,6 +159,25 @@ def numconv(chk, wd, binp):
         for f in fs[1:]:
             eqrows.append((x, fs[0], f))
             js.append("EQ(%s, %s, %d);" % (fs[0], f, len(rows) + len(eqrows) - 1))
+    # string spellings of the same inputs: every conversion site applies ToNumber (StringToNumber: Unicode white space, radix prefixes,
+    # exponents, magnitudes beyond 2^64), also the loose-equality operator in both operand orders
+    js.append("function SEQ(s, x, i32, u32, id) { n++; var r; try { r = [Object.is(Number(s), x), Object.is(+s, x), s == x, x == s, !(s != x), s - 0 === x, s * 1 === x, "
+              "!(s < x) && !(s > x), s >= x && s <= x, (s | 0) === i32, (s >>> 0) === u32, ~~s === i32, new Float64Array([s])[0] === x, Math.max(s) === x, "
+              "new Int32Array([s])[0] === i32, [x].includes(Number(s)), (x === 1 || x === 0) ? (s == (x === 1) && (x === 1) == s) : true, "
+              "new Number(s) == x, [s] == x, ({valueOf: function () { return s }}) == x, isFinite(s), x + s === String(x) + s]; } catch (e) { r = [false, 'throws ' + e]; } "
+              "if (r.indexOf(false) >= 0) bad.push([id, r.join()]); }")
+    srows = []
+    for x in sorted(tbl):
+        for sp in spellings(x):
+            srows.append((x, sp))
+            js.append("SEQ(%s, %s, %d, %d, %d);" % (json.dumps(sp), forms(x)[0], tbl[x]["i32"], tbl[x]["u32"], len(rows) + len(eqrows) + len(srows) - 1))
+    # strings that are NOT a StringNumericLiteral: NaN at every site
+    js.append("function SNAN(s, id) { n++; var r = [Number(s) !== Number(s), isNaN(s), isNaN(+s), (s | 0) === 0, (s >>> 0) === 0, !(s == 0), !(0 == s), !(s < 1) && !(s > -1), "
+              "Object.is(Math.abs(s), NaN), Object.is(new Float64Array([s])[0], NaN), Object.is(s - 0, NaN)]; if (r.indexOf(false) >= 0) bad.push([id, r.join()]); }")
+    nrows = ["0x-5", "0x+5", "-0x5", "+0b1", "0x", "0b", "0o", "0b12", "0o8", "0xg", "1_0", "0x1_0", "0x1p3", "0x1.8", "1e", "e1", ".", "+", "- 5", "5 5", "1..", "Inf", "infinity", "INFINITY", "+-1",
+             "0x\u00a01", "\u00a0\u00a0x", "1n", "0b1n", "NaN1", "\u180e1", "1\u200b"]
+    for sp in nrows:
+        js.append("SNAN(%s, %d);" % (json.dumps(sp), len(rows) + len(eqrows) + len(srows) + nrows.index(sp)))
     js.append("JSON.stringify({n: n, bad: bad})")
     src = os.path.join(wd, "numconv.js")
     open(src, "w").write("\n".join(js))
@@ -159,12 +187,23 @@ def numconv(chk, wd, binp):
         out = json.loads(r.stdout.strip().splitlines()[-1])
     except Exception:
         raise Inconclusive("numconv driver failed: %s %s" % (r.stdout[-300:], r.stderr[-300:]))
-    if out["n"] != len(rows) + len(eqrows):
+    if out["n"] != len(rows) + len(eqrows) + len(srows) + len(nrows):
         raise Inconclusive("numconv driver evaluated %d of %d rows" % (out["n"], len(rows)))
     chk.add("conversion_rows", len(rows))
     chk.add("conversion_inputs", len(tbl))
     chk.add("equal_form_pairs", len(eqrows))
+    chk.add("string_spelling_rows", len(srows))
     for i, got in out["bad"]:
+        if i >= len(rows) + len(eqrows) + len(srows):
+            sp = nrows[i - len(rows) - len(eqrows) - len(srows)]
+            chk.violation("string %s is not a numeric literal, but a conversion site does not give NaN: observers %s" % (json.dumps(sp), got),
+                          {"module": "NumConvStr", "s": sp, "x": "NaN", "got": got})
+            continue
+        if i >= len(rows) + len(eqrows):
+            x, sp = srows[i - len(rows) - len(eqrows)]
+            chk.violation("string spelling %s of %d: a conversion site disagrees with ToNumber: observers %s" % (json.dumps(sp), x, got),
+                          {"module": "NumConvStr", "s": sp, "x": str(x), "got": got})
+            continue
         if i >= len(rows):
             x, f0, f1 = eqrows[i - len(rows)]
             chk.violation("equal numbers told apart: a = %s, b = %s: observers %s" % (f0, f1, got), {"module": "NumConvEq", "a": f0, "b": f1, "got": got})
@@ -200,6 +239,24 @@ def replay(path):
                              "new Float64Array([a])[0] === b].join()" % (m0["a"], m0["b"]))
         r = subprocess.run([binp, src], stdout=subprocess.PIPE, stderr=subprocess.STDOUT, text=True)
         print("a = %s; b = %s => %s" % (m0["a"], m0["b"], r.stdout.strip()))
+        if "false" in r.stdout or "Error" in r.stdout:
+            print("VIOLATION property=C05 replay=%s" % path)
+            return 1
+        print("replay: agrees with the specification now")
+        return 0
+    if m0.get("module") == "NumConvStr":
+        wd = workdir("C05r")
+        binp = os.path.join(wd, "jsrun")
+        go_build("jsrun", binp)
+        src = os.path.join(wd, "r.js")
+        if m0["x"] == "NaN":
+            body = "var s = %s; [isNaN(s), isNaN(+s), (s | 0) === 0, !(s == 0), !(0 == s), Object.is(Math.abs(s), NaN), Object.is(new Float64Array([s])[0], NaN)].join()" % json.dumps(m0["s"])
+        else:
+            body = ("var s = %s, x = %s; [Object.is(Number(s), x), Object.is(+s, x), s == x, x == s, s - 0 === x, !(s < x) && !(s > x), new Float64Array([s])[0] === x, "
+                    "Math.max(s) === x, isFinite(s), new Number(s) == x, [s] == x].join()" % (json.dumps(m0["s"]), m0["x"] if not m0["x"].startswith("-") else "(" + m0["x"] + ")"))
+        open(src, "w").write(body)
+        r = subprocess.run([binp, src], stdout=subprocess.PIPE, stderr=subprocess.STDOUT, text=True)
+        print("s = %s (denotes %s) => %s" % (json.dumps(m0["s"]), m0["x"], r.stdout.strip()))
         if "false" in r.stdout or "Error" in r.stdout:
             print("VIOLATION property=C05 replay=%s" % path)
             return 1
